@@ -21,7 +21,8 @@ RULE = ('Generated PortfolioConstructionModel calls on a real broker with stub q
         'Date == dt and exactly the keys S with the expected weights. Non-trivial = some held asset is outside the '
         'universe or unweighted (must be liquidated) and some weighted asset is not held (long/short variant: a '
         'short position too).'
-        " Round-10 reach: the equal-weight optimiser also without an alpha model (equal weight over the universe's members); a third of the cases put a user risk model between alpha model and optimiser (pass-through, halve, keep the first asset, or veto everything with an empty dictionary).")
+        " Round-10 reach: the equal-weight optimiser also without an alpha model (equal weight over the universe's members); a third of the cases put a user risk model between alpha model and optimiser (pass-through, halve, keep the first asset, or veto everything with an empty dictionary)."
+        " Round-12 reach: orders sent through the ExecutionHandler (`via_exec`), PRINT_EVENTS on (`print_events`), weights with many decimals.")
 ASSUMPTIONS = [
     'target quantities are taken from a second call of the real sizer (sizing is C10/C11\'s subject)',
     'every asset in the pool has a quote; 7-asset pool; up to 4 successive rebalances',
@@ -99,6 +100,23 @@ def next_open(t):
 
 
 def run_case(case):
+    if not case.get('print_events'):
+        return _run_case(case)
+    # the library's default: PRINT_EVENTS on (everything it prints goes to a null device here)
+    import contextlib
+    import os
+    q = load()
+    q.settings.set_print_events(True)
+    try:
+        with open(os.devnull, 'w') as null, contextlib.redirect_stdout(null):
+            res = _run_case(case)
+        res.classes.append('print_events_on')
+        return res
+    finally:
+        q.settings.set_print_events(False)
+
+
+def _run_case(case):
     q = load()
     dh = kit.StubDH({a: (p, p) for a, p in zip(POOL, case['prices'])})
     b = q.SimulatedBroker(T0, q.SimulatedExchange(T0), dh, initial_funds=case['cash'], fee_model=kit.fee_model(case['fee']))
@@ -228,15 +246,28 @@ def run_case(case):
         info['liquidations'] += len(forced)
         info['orders'] += len(orders)
         info['rebalances'] += 1
-        for o in orders:
-            b.submit_order('p', o)
+        if case.get('via_exec'):
+            # the orders go to the broker through the execution handler, as a trading system sends them
+            from qstrader.execution.execution_handler import ExecutionHandler
+            from qstrader.execution.execution_algo.market_order import MarketOrderExecutionAlgorithm
+            ExecutionHandler(b, 'p', uni_obj, submit_orders=True, execution_algo=MarketOrderExecutionAlgorithm(),
+                             data_handler=dh)(tc, orders)
+            cls.add('orders_sent_through_the_execution_handler')
+        else:
+            for o in orders:
+                b.submit_order('p', o)
         if twin:
             held2 = {a: d['quantity'] for a, d in b.get_portfolio_as_dict('twin').items()}
             fw2 = {a: 0.0 for a in sorted(set(in_uni) | set(held2))}
             fw2.update(w)
             tgt2 = {a: d['quantity'] for a, d in twin_objs[1](tc, dict(fw2)).items()} if fw2 else {}
-            for o in twin_objs[0](tc, stats={'target_allocations': []}):
-                b.submit_order('twin', o)
+            orders2 = twin_objs[0](tc, stats={'target_allocations': []})
+            if case.get('via_exec'):
+                ExecutionHandler(b, 'twin', twin_objs[3], submit_orders=True, execution_algo=MarketOrderExecutionAlgorithm(),
+                                 data_handler=dh)(tc, orders2)
+            else:
+                for o in orders2:
+                    b.submit_order('twin', o)
         to = next_open(tc)
         for i, f in enumerate(rb['moves']):
             a = POOL[i]
@@ -318,7 +349,8 @@ def cases(draw):
         widx = draw(st.lists(st.integers(0, len(POOL) - 1), min_size=0, max_size=5, unique=True))
         weights = []
         for i in widx:
-            v = draw(st.one_of(st.floats(0.05, 1).map(lambda x: float('%.3g' % x)), st.sampled_from([0.0, 1.0, 0.5])))
+            v = draw(st.one_of(st.floats(0.05, 1).map(lambda x: float('%.3g' % x)), st.sampled_from([0.0, 1.0, 0.5]),
+                               st.sampled_from([1.0 / 3.0, 0.123456789, 1.0 / 7.0])))
             if not long_only and draw(st.booleans()):
                 v = -v
             weights.append([i, v])
@@ -339,7 +371,8 @@ def cases(draw):
             'reuse': draw(st.sampled_from([True, True, False])), 'other_portfolio': draw(st.booleans()),
             'twin': draw(st.sampled_from([False, False, True])),
             'optimiser': draw(st.sampled_from(['fixed', 'fixed', 'equal'])),
-            'risk_model': draw(st.sampled_from([False, False, True]))}
+            'risk_model': draw(st.sampled_from([False, False, True])),
+            'via_exec': draw(st.sampled_from([False, False, True])), 'print_events': draw(st.sampled_from([False, False, True]))}
 
 
 PARTS = [
